@@ -19,8 +19,14 @@ class World(object):
     fault = 0
     SENSE = bytes([0x70, 0, 6, 0, 0, 0, 0, 10, 0, 0, 0, 0, 0x29, 0, 0, 0, 0, 0])
 
-    def target(self, cdb, dataout, datain):
+    def target(self, cdb, dataout, datain, via=None):
         self.seen.append(list(cdb))
+        # the answer is the one of the device the command ARRIVED at (the node / the iSCSI target it came through),
+        # not of the device the harness meant
+        if via == "sgio":
+            self.cur_byte0 = self.byte0.get(("ino", self.fs.CALLS[-1]["ino"]), 0x7F)
+        elif via == "iscsi":
+            self.cur_byte0 = self.byte0.get(("iqn", self.fi.LOG[-1][1].get("target")), 0x7F)
         if self.fault:
             st, self.fault = self.fault, 0
             return (2, self.SENSE) if st == 2 else (st, None)
@@ -36,8 +42,10 @@ class World(object):
             p = os.path.join(self.dir, "sg%d" % self.n)
             open(p, "wb").close()
             d = mod("pyscsi.pyscsi.scsi_device").SCSIDevice(p)
+            self.byte0[("ino", os.stat(p).st_ino)] = (qual << 5) | type_
         else:
             d = mod("pyscsi.pyiscsi.iscsi_device").ISCSIDevice("iscsi://h/iqn.t%d/0" % self.n, "iqn.i")
+            self.byte0[("iqn", "iqn.t%d" % self.n)] = (qual << 5) | type_
         d._verif_byte0 = (qual << 5) | type_
         return d
 
@@ -76,8 +84,8 @@ def run(chk, replay=None):
     ec = mod("pyscsi.pyscsi.scsi_enum_command")
     SCSI = mod("pyscsi.pyscsi.scsi").SCSI
     w = World()
-    w.fs.reset(w.target)
-    w.fi.reset(w.target)
+    w.fs.reset(lambda c, o, i: w.target(c, o, i, "sgio"))
+    w.fi.reset(lambda c, o, i: w.target(c, o, i, "iscsi"))
     events, meta = [], []
     rng = random.Random(chk.seed)
 
